@@ -49,8 +49,10 @@ func (w *World) custody(denom string) *big.Rat {
 // ColdStorage: the governance cold-storage addresses of the deployment (custody, per the property statement).
 var ColdStorage = map[string]string{"minter": "0x7072558b2b91e62dbed78e9a3453e5c9e01fec5e", "ethereum": "0x58BD8047F441B9D511aEE9c581aEb1caB4FE0b6d", "bsc": "0xbCc2Fa395c6198096855c932f4087cF1377d28EE"}
 
+// toCold: a governance cold-storage transfer - created by the module itself (sender = the transit account) towards the
+// chain's cold-storage address. An ordinary user's transfer to that address is an ordinary transfer.
 func toCold(ch string, e *mhub2types.SendToExternal) bool {
-	return ext.ParseAddr(e.ExternalRecipient) == ext.ParseAddr(ColdStorage[ch])
+	return e.Sender == TempAddr().String() && ext.ParseAddr(e.ExternalRecipient) == ext.ParseAddr(ColdStorage[ch])
 }
 
 func entryTotal(e *mhub2types.SendToExternal) *big.Int {
